@@ -31,6 +31,32 @@ theorem AllMig.unmigB {c : Cfg κ} {t : Table κ ν} (h : AllMig t) (b : Nat) : 
   · rename_i lk hlk; simp [h _ _ hlk]
   · rfl
 
+/-- structural facts every internal step of an operation preserves -/
+structure Keeps (c : Cfg κ) (t t' : Table κ ν) : Prop where
+  hp : t'.hp = t.hp
+  rc : t'.rc = t.rc
+  mono : ∀ b, t.unmigB c b = false → t'.unmigB c b = false
+  allmig : AllMig t → AllMig t'
+
+theorem Keeps.refl (c : Cfg κ) (t : Table κ ν) : Keeps c t t := ⟨rfl, rfl, fun _ h => h, fun h => h⟩
+
+theorem Keeps.trans {c : Cfg κ} {t t' t'' : Table κ ν} (h : Keeps c t t') (h' : Keeps c t' t'') : Keeps c t t'' :=
+  ⟨h'.hp.trans h.hp, h'.rc.trans h.rc, fun b hb => h'.mono b (h.mono b hb), fun ha => h'.allmig (h.allmig ha)⟩
+
+/-- a cuckoo path whose consecutive buckets are alternates of each other under the recorded hashes -/
+def PathOK (c : Cfg κ) (hp : Nat) : List PathRec → Prop
+  | [] => True
+  | [p] => p.slot < c.S
+  | p :: q :: rest =>
+    p.slot < c.S ∧ q.bucket = Spec.altIndex hp (Spec.partialKey p.hash) p.bucket ∧ PathOK c hp (q :: rest)
+
+/-- what `cuckoo_insert_loop` promises about the position it returns -/
+def InsOK (c : Cfg κ) (t : Table κ ν) (k : κ) : InsPos → Prop
+  | .free b s =>
+    (b = c.i1 t.hp k ∨ b = c.i2 t.hp k) ∧ s < c.S ∧ t.cur.get c.S b s = none ∧ t.unmigB c b = false ∧
+    ∀ tag v, ¬ t.Live c ⟨tag, k, v⟩
+  | .dup b s => ∃ sl, t.cur.get c.S b s = some sl ∧ sl.key = k
+
 /-- a relation is carried along an unchanged live view -/
 theorem Rel.of_same {c : Cfg κ} {t t' : Table κ ν} {m : List (κ × ν)} (h : Rel c t m) (hs : Same c t t') :
     Rel c t' m :=
